@@ -45,6 +45,22 @@ pub fn c08(g: &mut Gen) {
             }
         }
     }
+    // builders after every kind of predecessor (incl. feedback blocks)
+    for (net, _) in [zoo_net2(g, 1), zoo_net2(g, 2), zoo_flat(g)] {
+        g.push(format!("net {} shapes", net.token()), Tol::Exact, "zoo/shapes", true);
+        let x = input_for(g, &net.input);
+        g.push(format!("net {} predict {}", net.token(), qt(&x)), Tol::Tight, "zoo/predict", true);
+        let t = target_for(g, &Sh::Flat(2), "mse");
+        g.push(format!("net {} backward {} {}", net.token(), qt(&x), qt(&t)), Tol::Tight, "zoo/gradient-shapes", true);
+    }
+    for c in 1..=2usize {
+        let (net, _) = zoo_net(g, c);
+        g.push(format!("net {} shapes", net.token()), Tol::Exact, "zoo/shapes", true);
+        let x = input_for(g, &net.input);
+        g.push(format!("net {} predict {}", net.token(), qt(&x)), Tol::Tight, "zoo/predict", true);
+        let t = target_for(g, &Sh::Flat(2), "mse");
+        g.push(format!("net {} backward {} {}", net.token(), qt(&x), qt(&t)), Tol::Tight, "zoo/gradient-shapes", true);
+    }
     // the configuration lattice of each spatial layer kind (valid and invalid points)
     let lim = g.n(5, 9);
     let kmax = g.n(3, 4);
@@ -125,6 +141,34 @@ pub fn c12(g: &mut Gen) {
             let s = samples_tok(g, &net, &out, n);
             g.push(format!("net {} validate {} {} {} 0", net.token(), n, s, hx(tol)), Tol::Tight, &format!("validate/{}/{}", n, net.obj), true);
         }
+    }
+    // networks with loop connections, skip connections and feedback blocks: predict / predict_batch / validate must
+    // still be the final activation of forward and its faithful aggregations
+    for variant in 0..g.n(6, 24) {
+        let cfgs = ArchCfg { wscale: 0.4, acts: vec!["tanh", "sigmoid", "linear"], ..ArchCfg::small() };
+        let (mut net, out) = skip_net(g, &cfgs, 4, 3, false);
+        match variant % 3 {
+            0 => { net.builds.push(Build::Loopback { outof: 1 + variant % 2, into: 0, iterations: 1 + variant % 3, scale: "inv".into(), inskips: variant % 2 == 0 }); }
+            1 => { net.builds.push(Build::Connect(0, 2)); net.builds.push(Build::Loopback { outof: 3, into: 1, iterations: 2, scale: "inv".into(), inskips: false }); }
+            _ => { net.builds.push(Build::Connect(1, 3)); }
+        }
+        net.loopacc = ACCS[variant % ACCS.len()].to_string();
+        net.skipacc = ACCS[(variant / 2) % ACCS.len()].to_string();
+        for n in [3usize, 70] {
+            let xs: Vec<String> = (0..n).map(|_| { let x = input_for(g, &net.input); qt(&x) }).collect();
+            g.push(format!("net {} predict_batch {} {}", net.token(), n, xs.join(" ")), Tol::Tight, &format!("predict_batch/loops-and-skips/{}", n), true);
+            let s = samples_tok(g, &net, &out, n);
+            g.push(format!("net {} validate {} {} {} 0", net.token(), n, s, hx(0.3)), Tol::Tight, &format!("validate/loops-and-skips/{}", n), true);
+        }
+    }
+    for variant in 0..g.n(2, 8) {
+        let cfgb = ArchCfg { wscale: 0.5, acts: vec!["tanh", "sigmoid", "linear", "relu"], ..ArchCfg::small() };
+        let (net, out) = block_net(g, &cfgb, 1 + variant % 3, variant % 2 == 0, variant % 3 == 0, ACCS[variant % ACCS.len()], variant % 2 == 1, true, false);
+        let n = 5;
+        let xs: Vec<String> = (0..n).map(|_| { let x = input_for(g, &net.input); qt(&x) }).collect();
+        g.push(format!("net {} predict_batch {} {}", net.token(), n, xs.join(" ")), Tol::Tight, "predict_batch/feedback-block", true);
+        let s = samples_tok(g, &net, &out, n);
+        g.push(format!("net {} validate {} {} {} 0", net.token(), n, s, hx(0.3)), Tol::Tight, "validate/feedback-block", true);
     }
     // arg-max ties and single-output accuracy at the tolerance boundary
     let cfg1 = ArchCfg { final_dense: Some(1), max_layers: 1, flat_input: Some(true), conv: false, deconv: false, pool: false, ..ArchCfg::small() };
@@ -525,6 +569,48 @@ pub fn c16(g: &mut Gen) {
             }
         }
     }
+    // skip connections whose end points are deconvolutions, max-pools and feedback blocks
+    for (a, b) in [(1usize, 2usize), (2, 3), (1, 3), (0, 1), (1, 4), (2, 4), (3, 4), (1, 5), (2, 5), (4, 5), (0, 4), (3, 3), (4, 4)] {
+        for acc in ["add", "mean"] {
+            if !g.ctx.thorough() && acc == "mean" && (a + b) % 2 == 0 { continue; }
+            let (mut net, out) = zoo_net(g, 1);
+            net.builds.push(Build::Connect(a, b));
+            net.skipacc = acc.to_string();
+            g.push(format!("net {} connectmap", net.token()), Tol::Exact, "zoo/connect", true);
+            let x = input_for(g, &net.input);
+            g.push(format!("net {} predict {}", net.token(), qt(&x)), Tol::Tight, &format!("zoo/skip-forward/{}", acc), true);
+            if acc == "add" && a != 0 && b != 4 && a != 4 {
+                let t = target_for(g, &out, "mse");
+                g.push(format!("net {} backward {} {}", net.token(), qt(&x), qt(&t)), Tol::Tight, "zoo/skip-gradient", true);
+            }
+        }
+    }
+    // skip connections into and out of flat feedback blocks
+    for (a, b) in [(0usize, 1usize), (1, 2), (0, 2), (1, 3), (2, 3), (1, 1)] {
+        let (mut net, _) = zoo_flat(g);
+        net.builds.push(Build::Connect(a, b));
+        g.push(format!("net {} connectmap", net.token()), Tol::Exact, "zoo-flat/connect", true);
+        let x = input_for(g, &net.input);
+        g.push(format!("net {} predict {}", net.token(), qt(&x)), Tol::Tight, "zoo-flat/skip-forward", true);
+    }
+    // the source is reshaped when it crosses the rank boundary: spatial source into a dense target whose ordinary
+    // input is the flattened output of a convolution, and flat source into a convolution fed by another convolution
+    for acc in ACCS.iter() {
+        let k1 = |g: &mut Gen| InnerSpec::Conv { filters: 1, act: "tanh".into(), k: (1, 1), s: (1, 1), p: (0, 0), d: (1, 1), dropout: None, ks: vec![weights(g, &Shape::Triple(1, 1, 1), 0.8)] };
+        let net = NetSpec { input: Shape::Triple(1, 2, 2), builds: vec![Build::Layer(k1(g)), Build::Layer(dense_spec(g, &cfg, 4, 4, "tanh", true)),
+            Build::Layer(dense_spec(g, &cfg, 4, 2, "tanh", true)), Build::Connect(0, 1)], skipacc: acc.to_string(), loopacc: "mean".into(), opt: None, obj: "mse".into(), clamp: None };
+        let x = input_for(g, &net.input);
+        g.push(format!("net {} predict {}", net.token(), qt(&x)), Tol::Tight, &format!("reshape/spatial-into-flat/{}", acc), true);
+        let net2 = NetSpec { input: Shape::Single(4), builds: vec![Build::Layer(dense_spec(g, &cfg, 4, 4, "tanh", true)), Build::Layer(k1(g)), Build::Layer(k1(g)),
+            Build::Layer(dense_spec(g, &cfg, 4, 2, "tanh", true)), Build::Connect(0, 2)], skipacc: acc.to_string(), loopacc: "mean".into(), opt: None, obj: "mse".into(), clamp: None };
+        let x2 = input_for(g, &net2.input);
+        g.push(format!("net {} predict {}", net2.token(), qt(&x2)), Tol::Tight, &format!("reshape/flat-into-spatial/{}", acc), true);
+        if *acc == "add" {
+            let t = target_for(g, &Sh::Flat(2), "mse");
+            g.push(format!("net {} backward {} {}", net.token(), qt(&x), qt(&t)), Tol::Tight, "reshape/skip-gradient", true);
+            g.push(format!("net {} backward {} {}", net2.token(), qt(&x2), qt(&t)), Tol::Tight, "reshape/skip-gradient", true);
+        }
+    }
     // different element counts are refused
     let (mut net, _) = skip_net(g, &cfg, 2, 3, false);
     net.builds.push(Build::Layer(dense_spec(g, &cfg, 3, 2, "tanh", true)));
@@ -599,6 +685,17 @@ pub fn c17(g: &mut Gen) {
             }
         }
     }
+    // loop ranges made of deconvolutions and max-pools, and ranges that touch a feedback block (refused)
+    for (hi, lo) in [(2usize, 1usize), (3, 1), (3, 2), (2, 2), (3, 3), (1, 1), (4, 3), (1, 0), (4, 4)] {
+        for (ai, acc) in ACCS.iter().enumerate() {
+            if !g.ctx.thorough() && (hi + lo + ai) % 2 == 1 { continue; }
+            let (mut net, _) = zoo_net(g, 1);
+            net.builds.push(Build::Loopback { outof: hi, into: lo, iterations: 1 + (hi + ai) % 3, scale: "inv".into(), inskips: (hi + lo + ai) % 3 == 0 });
+            net.loopacc = acc.to_string();
+            let x = input_for(g, &net.input);
+            g.push(format!("net {} predict {}", net.token(), qt(&x)), Tol::Tight, &format!("zoo/loop/{}", acc), true);
+        }
+    }
     // validation of indices and shapes
     let (mut net, _) = skip_net(g, &cfg, 3, 3, false);
     net.builds.push(Build::Loopback { outof: 0, into: 1, iterations: 1, scale: "inv".into(), inskips: false });
@@ -657,6 +754,13 @@ pub fn c01(g: &mut Gen) {
             let t = target_for(g, &out, "mse");
             g.push(format!("net {} backward {} {}", net.token(), qt(&x), qt(&t)), Tol::Tight, &format!("feedback/L{}/{}", loops, if spatial { "spatial" } else { "flat" }), true);
         }
+    }
+    // every layer kind next to every other, with feedback blocks (no internal skips) in the chain
+    for c in 1..=2usize {
+        let (net, out) = zoo_net(g, c);
+        let x = input_for(g, &net.input);
+        let t = target_for(g, &out, "mse");
+        g.push(format!("net {} backward {} {}", net.token(), qt(&x), qt(&t)), Tol::Tight, "zoo/backward", true);
     }
     // seeded random stream: any depth / mix, all objectives
     for i in 0..g.n(150, 4000) {
